@@ -86,6 +86,7 @@ func C04(c *Ctx) {
 	r.Rule("R04.2", "status writers: every write of a tx record (key TxInfoKey) stores either a freshly created record (in Begin / the record-absent branch) or a status produced by setFSM from a status that was loaded from the stored record on every path (Unmarshal / GetObject precedes setFSM); the executor's timeout write applies BEGIN_ROLLBACK only to ids read from the timeout list of the same height.")
 	r.Rule("R04.11", "the event table of its kind: a status code signed by the destination BitXHub (BxhProof.TxStatus) is translated into an FSM event through txStatus2EventM and through no other table, and only such codes are looked up there - also when the code reaches the lookup through a parameter of a helper (then the table and the code of every call site are paired). The two tables share their int32 keys (BEGIN_FAILURE = RECEIPT_SUCCESS = 1, BEGIN_ROLLBACK = RECEIPT_FAILURE = 2): a notice read through the receipt table drives BEGIN to SUCCESS by a transition the FSM table allows.")
 	c.c04EventTables()
+	c.c04FreshDecode()
 	r.Rule("R04.12", "a record begins once: TransactionManager.Begin writes the record of a request without reading it, so what keeps a final transaction final is the freshness test in front of it - in checkIBTP (or the helper that holds its index checks) every accepting path of the request branch passes either the index check of an ordered destination (checkIndex) or, for unordered destinations that take any index, the not-found edge of a lookup of the request's own id (IndexMapKey(ibtp.ID()), which ProcessIBTP records for every accepted request). Without the second a replayed request to an unordered service puts a SUCCESS / FAILURE record back to BEGIN (shared with C02 as R02.10).")
 	c.requestFreshness("R04.12")
 	r.Rule("R04.3", "a rejected receipt has no effect: in Report and BeginInterBitXHub every record write lies behind the no-error edge of setFSM.")
@@ -181,6 +182,22 @@ func C04(c *Ctx) {
 			obj := rootObject(cl.Call.Args[1])
 			// loaded: an Unmarshal / GetObject on the same object precedes on every path
 			isLoad := func(in ssa.Instruction) bool {
+				// record, err := decodeTxRecord(data): the object is assigned the result of a module helper that decodes
+				if st, isSt := in.(*ssa.Store); isSt && rootObject(st.Addr) == obj {
+					v := st.Val
+					if ex, isEx := v.(*ssa.Extract); isEx {
+						v = ex.Tuple
+					}
+					if hc, isCall := v.(*ssa.Call); isCall {
+						if g := core.StaticCallee(hc); g != nil && len(g.Blocks) > 0 && c.P.InModule(g) {
+							for _, gc := range core.Calls(g) {
+								if o := core.CalleeObj(gc); o != nil && (o.Name() == "Unmarshal" || o.Name() == "GetObject") {
+									return true
+								}
+							}
+						}
+					}
+				}
 				cc, ok := in.(ssa.CallInstruction)
 				if !ok {
 					return false
